@@ -29,7 +29,7 @@ def _prep_schema_specification(v) -> Optional[Union[Type, Set, Dict]]:
         return None
     elif isinstance(v, type):
         return v
-    elif isinstance(v, set):
+    elif isinstance(v, (set, frozenset)):
         new_set = {_prep_schema_specification(vi) for vi in v}
         new_set = {vi for vi in new_set if vi is not None}
         for vi in new_set:
